@@ -26,7 +26,8 @@ def r2_2_message_type(ctx, prog):
     ctx.rule("R2.2", "message type interleaving (RFC 8489 fig. 3) for all 16384 (method, class) pairs at once by bit provenance: "
                      "encode: M0-3 -> bits 0-3, C0 -> 4, M4-6 -> 5-7, C1 -> 8, M7-11 -> 9-13, bits 14-15 = 0; decode is the "
                      "inverse; method values are kept below 0x1000 by construction")
-    paths, info = C.explore_fn(prog, MT + "::as_u16", "mt", [r"message::MessageMethod::as_u16$", r"message::MessageClass::as_u16$"])
+    paths, info = C.explore_fn(prog, MT + "::as_u16", "mt", [r"message::MessageMethod::as_u16$", r"message::MessageClass::as_u16$", r"\{closure"],
+                               concrete_iters=True)
     ctx.fn(info["body"])
     cls_val = {"Request": 0, "Indication": 1, "SuccessResponse": 2, "ErrorResponse": 3}
     n = 0
@@ -50,7 +51,7 @@ def r2_2_message_type(ctx, prog):
     got = {pa.choice(r"^variant\(c\)$"): pa.ret for pa in paths}
     ctx.ob("R2.2", "class-values", got == cls_val, "MessageClass::as_u16: %s" % got, info["where"])
     # decode
-    paths, info = C.explore_fn(prog, "<%s as std::convert::From<u16>>::from" % MT, "x", [])
+    paths, info = C.explore_fn(prog, "<%s as std::convert::From<u16>>::from" % MT, "x", [r"\{closure"], concrete_iters=True)
     ctx.fn(info["body"])
     leaf = "top:value"
     done = 0
@@ -336,7 +337,8 @@ def r2_6_address_layout(ctx, prog, rule="R2.6"):
             continue
         fam = None
         for nme, v in pa.choices:
-            if re.match(r"^variant\(ret:ip", str(nme)):
+            # the family is decided on self.ip() or on the SocketAddr itself (`match self { SocketAddr::V4(a) => .. }`)
+            if re.match(r"^variant\(ret:ip", str(nme)) or (str(nme) == "variant(x)" and v in ("V4", "V6")):
                 fam = v
         n += 1
         ivs, probs = K.intervals(prog, pa, "buffer")
@@ -346,10 +348,14 @@ def r2_6_address_layout(ctx, prog, rule="R2.6"):
         okc, reached = K.covered(ivs, size) if isinstance(size, int) else (False, None)
         b0, b1 = K.byte_value(ivs, 0), K.byte_value(ivs, 1)
         port = [K.byte_value(ivs, 2), K.byte_value(ivs, 3)]
-        port_ok = all(isinstance(x, tuple) and x[0] == "be-byte" and x[1] == ("SocketAddr::port", "top:x") and x[3] == 2 for x in port) \
+        # the port / address of self, read through SocketAddr::port / ip or through the V4 / V6 payload's own accessors
+        is_port = lambda t: isinstance(t, tuple) and len(t) == 2 and t[0] in ("SocketAddr::port", "SocketAddrV4::port", "SocketAddrV6::port") \
+            and (t[1] == "top:x" or (isinstance(t[1], tuple) and t[1][0] in ("SocketAddr::V4", "SocketAddr::V6") and "top:x" in repr(t[1])) or "top:x." in repr(t[1]))
+        port_ok = all(isinstance(x, tuple) and x[0] == "be-byte" and is_port(x[1]) and x[3] == 2 for x in port) \
             and [x[2] for x in port] == [0, 1]
         addr = [K.byte_value(ivs, i) for i in range(4, 4 + alen)]
-        addr_ok = all(isinstance(x, tuple) and x[0] == "byte-of" and "octets" in repr(x[1]) and "SocketAddr::ip" in repr(x[1]) and x[3] == alen for x in addr) \
+        addr_ok = all(isinstance(x, tuple) and x[0] == "byte-of" and "octets" in repr(x[1]) and ("SocketAddr::ip" in repr(x[1]) or ("%s::ip" % ("SocketAddrV4" if fam == "V4" else "SocketAddrV6")) in repr(x[1]))
+                      and "top:x" in repr(x[1]) and x[3] == alen for x in addr) \
             and [x[2] for x in addr] == list(range(alen))
         ok = not probs and okc and size == 4 + alen and b0 == 0 and b1 == code and port_ok and addr_ok
         fam_len[code] = 4 + alen
@@ -358,7 +364,7 @@ def r2_6_address_layout(ctx, prog, rule="R2.6"):
             ("; " + "; ".join(probs)) if probs else ""), info["where"], replay=None if ok else pa.describe())
     ctx.floor(rule, "writer families", n, 2)
     paths, info = C.explore_fn(prog, AP + "encoded_size_", "x", [])
-    sizes = {pa.choice(r"^variant\(ret:ip@"): pa.ret for pa in paths}
+    sizes = {(pa.choice(r"^variant\(ret:ip@") or pa.choice(r"^variant\((addr|x|self)\)$")): pa.ret for pa in paths}
     ctx.ob(rule, "writer:sizes", sizes == {"V4": 8, "V6": 20}, "encoded_size_ = %s" % sizes, info["where"])
     # reader
     paths, info = C.explore_fn(prog, AP + "<impl stun_rs::Decode<'_> for std::net::SocketAddr>::decode", "x", [r"\{closure"])
@@ -421,7 +427,28 @@ def r2_7_u16_list(ctx, prog, rule="R2.7"):
             wr = [e for e in pa.calls if re.search(r"ByteOrder>::write_u16$", e[1])]
             ok = len(ix) == 1 and len(wr) == 1 and isinstance(ix[0][1], tuple) and ix[0][1][0] == "RangeFrom" \
                 and isinstance(ix[0][1][1], tuple) and ix[0][1][1][0] == "op:Mul" and ix[0][1][1][2] == 2
-            ctx.ob(rule, "writer:stride", ok, "entry written at %s" % (show(ix[0][1])[:80] if ix else None), b.where())
+            why = "entry written at %s" % (show(ix[0][1])[:80] if ix else None)
+            if not ix:
+                # `chunks_exact_mut(2).zip(list.iter()).for_each(|(chunk, x)| <write x big-endian into chunk>)`: the closure
+                # fills its chunk with its entry; the parent hands it the 2-byte chunks of the value zipped with the list
+                cw = [C.expr_of(pa, e[2]) for e in pa.calls if re.search(r"ByteOrder>::write_u16$|copy_from_slice$", e[1])]
+                fills = len(cw) == 1 and "arg2.0" in repr(cw[0][0]) and "arg2.1" in repr(cw[0][1]) and \
+                    ("to_be_bytes" in repr(cw[0][1]) or any(re.search(r"write_u16$", e[1]) for e in pa.calls))
+                from .. import linproof as LP
+                pp, pinfo = C.explore_fn(prog, "<%s as stun_rs::attributes::EncodeAttributeValue>::encode" % UA, "x", [], log_asserts=True)
+                feeds = False
+                for ppa in pp:
+                    for i_, e_ in enumerate(ppa.log):
+                        if e_[0] == "call" and re.search(r"Iterator>::for_each", e_[1]):
+                            z = LP.strip(C.expr_of(ppa, e_[2], 0, i_)[0])
+                            if isinstance(z, tuple) and z[0].endswith("::zip") and len(z) == 3:
+                                ch, other = LP.strip(z[1]), LP.strip(z[2])
+                                if isinstance(ch, tuple) and re.search(r"chunks_exact_mut$", ch[0]) and ch[2] == 2 and "attrs" in repr(other):
+                                    root, lo, hi = LP.Lin().view(ch[1])
+                                    feeds = "raw_value" in repr(root) and lo == {}
+                ok = fills and feeds
+                why = "the closure writes its entry big-endian into its chunk: %s; it is fed the 2-byte chunks of the value zipped with the list: %s" % (fills, feeds)
+            ctx.ob(rule, "writer:stride", ok, why, b.where())
     n_writers = len(cl)
     if not cl:
         # loop form: `for (slot, x) in raw_value[..len].chunks_exact_mut(2).zip(attrs.iter()) { write_u16(slot, *x) }`:
